@@ -57,6 +57,21 @@ class ViewBase:
         return f"ViewBase({self.tag})"
 
 
+class ArbitraryBase:
+    """Content of a module-level mutable container: whatever earlier calls left there."""
+    def __init__(self, tag):
+        self.tag = tag
+
+    def get(self, I, key):
+        p = I.path
+        if p.branch(z3.Bool(p.fresh_name(f"{self.tag}.has-entry")), f"global-state({self.tag})"):
+            return I.contracts.make_child(I, p.fresh_name(f"{self.tag}.entry"))
+        return None
+
+    def __repr__(self):
+        return f"ArbitraryBase({self.tag})"
+
+
 class RegexObj:
     def __init__(self, pattern):
         self.pattern = pattern
@@ -116,6 +131,10 @@ class Builtins:
             out.append(self.nonempty(t) == z3.BoolVal(len(s) > 0))
             out.append(self.allword(t) == z3.BoolVal(_re.match(r"\A\w*\Z", s) is not None))
         return out + sym.strname_injective_axioms()
+
+    def arbitrary_global_container(self, mod, node):
+        d = SDict(base=ArbitraryBase(f"global@{mod.short}:{node.lineno}"))
+        return d
 
     # ------------------------------------------------------------------ builtins table
     def lookup_builtin(self, name):
@@ -409,6 +428,8 @@ class Builtins:
             return True
         if isinstance(a, SDict) and isinstance(b, SDict):
             return self.dict_equals(a, b)
+        if isinstance(a, SSet) and isinstance(b, SSet):
+            return a.term == b.term
         if isinstance(a, SStr) or isinstance(b, SStr):
             raise Unsupported("symbolic string equality in code")
         # values of different kinds are never equal (number vs str, str vs None ...)
